@@ -93,6 +93,39 @@ Section H.
     subst. split; reflexivity.
   Qed.
 
+  (* --- the live connection: nothing is delivered after a refusal --- *)
+  Notation serve := (serve typed_other set_cookie).
+  Definition is_handler (a : action) : bool := match a with AHandler _ => true | _ => false end.
+  Definition is_respond (a : action) : bool := match a with ARespond _ => true | _ => false end.
+
+  Theorem serve_length : forall reads maxsz st, length (serve maxsz st reads) = length reads.
+  Proof.
+    induction reads as [|s rest IH]; intros maxsz st; [reflexivity|]. cbn [HandlerModel.serve].
+    destruct (on_input maxsz st s) as [[|m|c] st1]; cbn [length]; rewrite ?map_length, ?IH; reflexivity.
+  Qed.
+
+  Lemma waits_no_respond c : forall l : list bytes, In (ARespond c) (map (fun _ : bytes => AWait) l) -> False.
+  Proof. induction l as [|y l IHl]; cbn; [tauto|]. intros [E|E]; [discriminate|auto]. Qed.
+
+  (* whatever bytes follow a refused request - its own remainder, a request hidden in its body, further requests -
+     the handler is not called again and no second response is sent: after the FIRST refusal every read is ignored *)
+  Theorem nothing_after_refusal : forall reads maxsz st pre c post,
+    serve maxsz st reads = pre ++ ARespond c :: post ->
+    forallb (fun a => negb (is_respond a)) pre = true ->
+    forallb is_wait post = true.
+  Proof.
+    induction reads as [|s rest IH]; intros maxsz st pre c post H Hn.
+    - destruct pre; discriminate.
+    - cbn [HandlerModel.serve] in H. destruct (on_input maxsz st s) as [[|m|c0] st1].
+      + destruct pre as [|x pre']; [discriminate|]. inversion H; subst. cbn [forallb] in Hn.
+        apply andb_prop in Hn. destruct Hn as [_ Hn]. exact (IH maxsz st1 pre' c post H2 Hn).
+      + destruct pre as [|x pre']; [discriminate|]. inversion H; subst. cbn [forallb] in Hn.
+        apply andb_prop in Hn. destruct Hn as [_ Hn]. exact (IH maxsz st1 pre' c post H2 Hn).
+      + destruct pre as [|x pre'].
+        * inversion H; subst. clear. induction rest; [reflexivity|exact IHrest].
+        * inversion H; subst. cbn in Hn. discriminate.
+  Qed.
+
   (* --- C14: the size rule --- *)
 
   Lemma parse_buf st : p_buf (snd (parse st)) = p_buf st.
